@@ -154,6 +154,9 @@ def run(out, tier):
                 out.inconc("%s: %s (not reproduced natively: %s)" % (oid, bad, rep))
     stack_kernel(out, eng, tier)
     dup_swap_and_memory(out, eng)
+    push_like(out, eng)
+    state_fork(out, eng)
+    composite(out, eng)
 
 
 # =============================================================================================================
@@ -452,3 +455,346 @@ def _report(out, oid, bad, seen, scenario, what, key):
         else:
             out.obligation(oid, "mirsmt", "cex-not-reproduced", 0, witness=False, note=bad, replay=rep)
             out.inconc("%s: %s (not reproduced natively: %s)" % (oid, bad, str(rep)[:200]))
+
+
+# =============================================================================================================
+# W4: what the push-like instructions put on the stack (PUSH0 = 0, PUSHn = its immediate, PC = its own offset)
+# W5: VMState::fork keeps every component of the state (writes made before a branch are seen on both sides)
+# =============================================================================================================
+def push_like(out, eng):
+    from . import jumps
+    M, CT = "src/opcode/memory.rs", "src/opcode/control.rs"
+    IPV = jumps.vm_names()["ip"]
+
+    def builder_known(ctx, a, ty, c):
+        ctx.events.append(("built-known", ctx.force(a[1]).e if not isinstance(a[1], Obj) else a[1], a[2], a[3]))
+        return Obj("node", "RuntimeBoxedVal", what="known")
+
+    def builder_symbolic(ctx, a, ty, c):
+        ctx.events.append(("built-symbolic", a[1], a[2], a[3]))
+        return Obj("node", "RuntimeBoxedVal", what="symbolic")
+
+    def bytes_as_word(ctx, a, ty, c):
+        return Agg("KnownWord", {0: Int(z3.BitVec("push_immediate_be", 256), 256)})
+    extra = summaries() + [(r"^ValueBuilder::known$", builder_known), (r"^ValueBuilder::symbolic$", builder_symbolic),
+                           (r"^PushN::bytes_as_word$", bytes_as_word)]
+    cases = [("Push0", M, "zero"), ("PushN", M, "immediate"), ("PC", CT, "ip")]
+    for ty_, file, want in cases:
+        oid = "W4.%s_pushes_%s" % (ty_, want)
+        f = find_execute(eng, file, ty_)
+        if f is None:
+            out.inconc("%s: execute not found" % oid)
+            continue
+        ex = eng.explorer(extra=extra)
+
+        def body(ctx, f=f, ty_=ty_):
+            ctx.assume(z3.And(jumps.vm_invariants(jumps.vm_names())[:7]))
+            me = Cell(Lazy("opcode::%s" % ty_, "self"), "self")
+            r = ctx.run_fn(f, [Ref(me, ()), Ref(Cell(Lazy("vm::VM", "vm"), "vm"), (), True)])
+            return r, ctx
+        try:
+            paths = ex.explore(body)
+        except Unsupported as e:
+            out.obligation(oid, "mirsmt", "inconclusive", 0, witness=False, note=str(e))
+            out.inconc("%s: %s" % (oid, e))
+            continue
+        bad, seen = None, 0
+        for p in paths:
+            if p.kind != "return" or not (isinstance(p.ret[0], Agg) and p.ret[0].variant == "Ok"):
+                continue
+            ctx = p.ctx
+            built = [e for e in ctx.events if e[0].startswith("built")]
+            pushes = [e[1] for e in ctx.events if e[0] == "push"]
+            if len(built) != 1 or len(pushes) != 1 or not (isinstance(pushes[0], Obj) and pushes[0].kind == "node"):
+                bad = "%s does not push exactly one freshly built value" % ty_
+                continue
+            seen += 1
+            kind, a1, a2, a3 = built[0]
+            # the 256-bit constant that was built
+            val = None
+            if kind == "built-known":
+                w = a2
+                val = ctx.force(w.fields[0]).e if isinstance(w, Agg) and 0 in w.fields else None
+            else:
+                d = a2
+                if isinstance(d, Agg) and d.variant == "KnownData":
+                    w = d.fields.get(0)
+                    val = ctx.force(w.fields[0]).e if isinstance(w, Agg) and 0 in w.fields else None
+            if val is None:
+                bad = "%s pushes something that is not a constant" % ty_
+                continue
+            expect = {"zero": z3.BitVecVal(0, 256), "immediate": z3.BitVec("push_immediate_be", 256), "ip": z3.ZeroExt(224, IPV)}[want]
+            s = z3.Solver()
+            for c_ in p.pc:
+                s.add(c_)
+            s.add(val != expect)
+            if s.check() == z3.sat:
+                bad = "%s pushes %s, expected %s" % (ty_, z3.simplify(val), want)
+        _report(out, oid, bad, seen, "push_like", "%s pushes %s" % (ty_, want), "push-like-value:%s" % ty_)
+
+
+def state_fork(out, eng):
+    f = eng.fn(">::fork", file="src/vm/state/mod.rs")
+    ex = eng.explorer()
+
+    def body(ctx):
+        cell = Cell(Lazy("vm::state::VMState", "st"), "st")
+        r = ctx.run_fn(f, [Ref(cell, ()), Int(z3.BitVec("fork_point", 32), 32)])
+        return r, cell, ctx
+    oid = "W5.state_fork_keeps_everything"
+    try:
+        paths = ex.explore(body)
+    except Unsupported as e:
+        out.obligation(oid, "mirsmt", "inconclusive", 0, witness=False, note=str(e))
+        out.inconc("%s: %s" % (oid, e))
+        return
+    fields = eng.src._find(eng.src.structs, "vm::state::VMState") or []
+    bad, seen = None, 0
+    for p in paths:
+        if p.kind != "return":
+            bad = "fork ends with %s" % p.kind
+            continue
+        r, cell, ctx = p.ret
+        seen += 1
+        if isinstance(r, Lazy):
+            bad = "fork returns the state unchanged (fork_point not set)"
+            continue
+        for i, name in enumerate(fields):
+            v = r.fields.get(i) if isinstance(r, Agg) else None
+            if name == "fork_point":
+                fp = ctx.force(v) if v is not None else None
+                if fp is None or str(z3.simplify(fp.e)) != "fork_point":
+                    bad = "fork does not record the fork point"
+                continue
+            # every other component must still be the (never inspected) component of the original
+            if v is not None and not (isinstance(v, Lazy) and v.name == "st.%d" % i):
+                if isinstance(v, Agg) and v.name == "st.%d" % i:
+                    continue
+                bad = "fork replaces `%s` instead of cloning it" % name
+    _report(out, oid, bad, seen, "fork_keeps_storage", "VMState::fork clones stack, memory, storage, recorded / logged values, config and visit counts",
+            "state-fork-drops-component")
+
+
+# =============================================================================================================
+# W6: composite opcodes (BYTE, ADDMOD, MULMOD): the tree they build, evaluated with the EVM meaning of each node kind
+#     (C09), must equal the EVM result of the opcode for ALL 256-bit operands.  BYTE is decided over bit-vectors;
+#     ADDMOD/MULMOD over mathematical integers with explicit mod 2^256 (bit-blasting a 512-bit divider does not
+#     finish; the integer encoding answers in under a second).  Each opcode's operand space is split into regions so
+#     that a known defect in one region does not hide a new one in another.
+# =============================================================================================================
+M256 = 1 << 256
+
+
+def eval_tree(ctx, eng, v, ops, mode):
+    """value of a built tree: operands are ops[k]; nodes are evaluated by EVM semantics (bv: 256-bit vectors, int: integers mod 2^256)"""
+    W = 256
+
+    def const(e):
+        if mode == "bv":
+            return e
+        e = z3.simplify(e)
+        if not z3.is_bv_value(e):
+            raise Unsupported("symbolic constant in an integer-mode tree")
+        return z3.IntVal(e.as_long())
+    if isinstance(v, Obj) and v.kind == "operand":
+        return ops[v.index]
+    if isinstance(v, Obj) and v.kind == "knode":
+        return const(v.value)
+    if isinstance(v, Obj) and v.kind == "node":
+        d = v.data
+        if not isinstance(d, Agg):
+            raise Unsupported("node data %r" % (d,))
+        var = d.variant
+        f = lambda name: eval_tree(ctx, eng, d.fields[eng.src.field_index(ENUM, name, var)], ops, mode)
+        if var == "KnownData":
+            return const(ctx.force(d.fields[0].fields[0]).e)
+        if mode == "int":
+            if var == "Add":
+                return (f("left") + f("right")) % M256
+            if var == "Subtract":
+                return (f("left") - f("right")) % M256
+            if var == "Multiply":
+                return (f("left") * f("right")) % M256
+            if var == "Modulo":
+                a, b = f("dividend"), f("divisor")
+                return z3.If(b == 0, 0, a % b)
+            if var == "Divide":
+                a, b = f("dividend"), f("divisor")
+                return z3.If(b == 0, 0, a / b)
+            raise Unsupported("node kind %s in integer mode" % var)
+        big = z3.BitVecVal(256, W)
+        zero = z3.BitVecVal(0, W)
+        if var == "Add":
+            return f("left") + f("right")
+        if var == "Subtract":
+            return f("left") - f("right")
+        if var == "Multiply":
+            return f("left") * f("right")
+        if var == "Modulo":
+            a, b = f("dividend"), f("divisor")
+            return z3.If(b == 0, zero, z3.URem(a, b))
+        if var == "Divide":
+            a, b = f("dividend"), f("divisor")
+            return z3.If(b == 0, zero, z3.UDiv(a, b))
+        if var == "And":
+            return f("left") & f("right")
+        if var == "Or":
+            return f("left") | f("right")
+        if var == "RightShift":
+            s_, x = f("shift"), f("value")
+            return z3.If(z3.UGE(s_, big), zero, z3.LShR(x, s_))
+        if var == "LeftShift":
+            s_, x = f("shift"), f("value")
+            return z3.If(z3.UGE(s_, big), zero, x << s_)
+        raise Unsupported("node kind %s in a composite opcode" % var)
+    raise Unsupported("value %r" % (v,))
+
+
+def composite_specs():
+    specs = {}
+    i, x = z3.BitVec("op0", 256), z3.BitVec("op1", 256)
+    specs["Byte"] = dict(file="src/opcode/logic.rs", mode="bv", ops=[i, x], opcode=0x1a,
+                         spec=z3.If(z3.ULT(i, 32), z3.LShR(x, z3.BitVecVal(248, 256) - 8 * i) & 0xff, z3.BitVecVal(0, 256)),
+                         regions=[("offset<2^253", z3.ULT(i, z3.BitVecVal(1 << 253, 256))),
+                                  ("offset>=2^253", z3.UGE(i, z3.BitVecVal(1 << 253, 256)))])
+    a, b, n = z3.Ints("op0 op1 op2")
+    rng = z3.And(*[z3.And(v >= 0, v < M256) for v in (a, b, n)])
+    specs["AddMod"] = dict(file="src/opcode/arithmetic.rs", mode="int", ops=[a, b, n], opcode=0x08,
+                           spec=z3.If(n == 0, 0, (a + b) % n),
+                           regions=[("a+b<2^256", z3.And(rng, a + b < M256)), ("a+b>=2^256", z3.And(rng, a + b >= M256))])
+    specs["MulMod"] = dict(file="src/opcode/arithmetic.rs", mode="int", ops=[a, b, n], opcode=0x09,
+                           spec=z3.If(n == 0, 0, (a * b) % n),
+                           regions=[("a*b<2^256", z3.And(rng, a * b < M256)), ("a*b>=2^256", z3.And(rng, a * b >= M256))])
+    return specs
+
+
+def composite(out, eng):
+    from . import jumps
+    from mirsmt.summaries import load, some, none
+
+    def builder_known(ctx, a_, ty, c):
+        w = a_[2]
+        val = ctx.force(w.fields[0]).e if isinstance(w, Agg) and 0 in w.fields else None
+        if val is None:
+            raise Unsupported("ValueBuilder::known of %r" % (w,))
+        return Obj("knode", "RuntimeBoxedVal", value=val)
+
+    def const_fold(ctx, a_, ty, c):
+        v = load(ctx, a_[0])
+        if isinstance(v, Obj) and v.kind == "operand":
+            # the operand may or may not be a constant; when it is, its word is the operand's value
+            return Obj("folded-operand", "Arc", index=v.index, const=ctx.choose(2) == 0)
+        return NotImplemented
+
+    def as_word(ctx, a_, ty, c):
+        v = load(ctx, a_[0]) if isinstance(a_[0], Ref) else a_[0]
+        if isinstance(v, Obj) and v.kind == "folded-operand":
+            if v.const:
+                return some(ty, Agg("KnownWord", {0: Int(z3.BitVec("op%d" % v.index, 256), 256)}))
+            return none(ty)
+        return NotImplemented
+
+    def rc_deref(ctx, a_, ty, c):
+        v = load(ctx, a_[0])
+        if isinstance(v, Obj) and v.kind in ("folded-operand", "operand"):
+            return Ref(Cell(v, "deref"), ())
+        return NotImplemented
+    extra = summaries() + [(r"^ValueBuilder::known$", builder_known), (r"^SymbolicValue::<\(\)>::constant_fold$", const_fold),
+                           (r"^SymbolicValue::<\(\)>::as_word$", as_word), (r"^<Arc<SymbolicValue<\(\)>> as Deref>::deref$", rc_deref)]
+    for op, sp in composite_specs().items():
+        f = find_execute(eng, sp["file"], op)
+        ex = eng.explorer(extra=extra)
+        arity = len(sp["ops"])
+
+        def body(ctx, f=f, op=op):
+            ctx.assume(z3.And(jumps.vm_invariants(jumps.vm_names())[:7]))
+            r = ctx.run_fn(f, [Ref(Cell(Agg("opcode::%s" % op), "self"), ()), Ref(Cell(Lazy("vm::VM", "vm"), "vm"), (), True)])
+            return r, ctx
+        t0 = time.time()
+        try:
+            paths = ex.explore(body)
+        except Unsupported as e:
+            out.obligation("W6.%s_semantics" % op, "mirsmt", "inconclusive", time.time() - t0, witness=False, note=str(e))
+            out.inconc("W6.%s: %s" % (op, e))
+            continue
+        explore_s = time.time() - t0
+        for region, pred in sp["regions"]:
+            oid = "W6.%s_semantics[%s]" % (op, region)
+            t0 = time.time()
+            bad, model, seen = None, None, 0
+            try:
+                for p in paths:
+                    if p.kind != "return" or not (isinstance(p.ret[0], Agg) and p.ret[0].variant == "Ok"):
+                        continue
+                    pushes = [e[1] for e in p.ctx.events if e[0] == "push"]
+                    pops = [e for e in p.ctx.events if e[0] == "pop"]
+                    if len(pushes) != 1 or len(pops) != arity:
+                        bad = "%d pops / %d pushes" % (len(pops), len(pushes))
+                        break
+                    seen += 1
+                    val = eval_tree(p.ctx, eng, pushes[0], sp["ops"], sp["mode"])
+                    s = z3.Solver()
+                    s.set("timeout", 120000)
+                    if sp["mode"] == "bv":
+                        for c_ in p.pc:
+                            s.add(c_)
+                    s.add(pred)
+                    s.add(val != sp["spec"])
+                    s.set("timeout", 30000 if sp["mode"] == "int" else 120000)
+                    r_ = s.check()
+                    if r_ == z3.unknown and sp["mode"] == "int":
+                        # nonlinear integer query: look for a counterexample with all operands but one pinned to the
+                        # property's boundary values (a model found this way is a model of the full query); an
+                        # exhausted search stays inconclusive
+                        import itertools
+                        pins = [M256 - 1, 1 << 255, 3, (1 << 128) + 1]
+                        for free in range(arity):
+                            others = [k for k in range(arity) if k != free]
+                            for combo in itertools.product(pins, repeat=len(others)):
+                                s.push()
+                                for k, c_ in zip(others, combo):
+                                    s.add(sp["ops"][k] == c_)
+                                s.set("timeout", 5000)
+                                r_ = s.check()
+                                if r_ == z3.sat:
+                                    model = s.model()
+                                s.pop()
+                                if model is not None:
+                                    break
+                            if model is not None:
+                                break
+                        r_ = z3.sat if model is not None else z3.unknown
+                    if r_ == z3.sat:
+                        model = model or s.model()
+                        bad = "the tree built for %s evaluates to %s, the EVM gives %s" % (
+                            op.upper(), model.eval(val, model_completion=True), model.eval(sp["spec"], model_completion=True))
+                        break
+                    if r_ == z3.unknown:
+                        raise Unsupported("z3: %s" % s.reason_unknown())
+            except Unsupported as e:
+                out.obligation(oid, "mirsmt", "inconclusive", time.time() - t0, witness=False, note=str(e))
+                out.inconc("%s: %s" % (oid, e))
+                continue
+            dt = time.time() - t0 + explore_s
+            if bad is None and seen:
+                out.obligation(oid, "mirsmt", "holds", dt, witness=True, paths=seen, encoding=sp["mode"])
+            elif bad is None:
+                out.obligation(oid, "mirsmt", "vacuous", dt, witness=False)
+                out.inconc("%s: no successful path" % oid)
+            elif model is None:
+                out.obligation(oid, "mirsmt", "violated", dt, witness=True, note=bad)
+                out.violation(C.Violation(key="composite-opcode:%s:shape" % op, what="%s: %s" % (oid, bad), replay={"engine": "mirsmt"}))
+            else:
+                vals = [model.eval(o, model_completion=True).as_long() for o in sp["ops"]]
+                want = model.eval(sp["spec"], model_completion=True).as_long()
+                params = {"opcode": sp["opcode"], "want": "%064x" % want}
+                for k, v_ in enumerate(vals):
+                    params["op%d" % k] = "%064x" % v_
+                confirmed, rep = native.scenario(out, "composite_opcode", params)
+                if confirmed:
+                    out.obligation(oid, "mirsmt", "violated", dt, witness=True, note=bad, replay=rep, operands=["%x" % v_ for v_ in vals])
+                    out.violation(C.Violation(key="composite-opcode:%s:%s" % (op, region), what="%s: %s (operands %s)" % (
+                        oid, bad, ", ".join("0x%x" % v_ for v_ in vals)), replay={"engine": "mirsmt", "native": rep}))
+                else:
+                    out.obligation(oid, "mirsmt", "cex-not-reproduced", dt, witness=False, note=bad, replay=rep)
+                    out.inconc("%s: %s (not reproduced natively: %s)" % (oid, bad, str(rep)[:200]))
